@@ -63,7 +63,7 @@ func genCase(t *rapid.T) Case {
 	}
 	// split into pages
 	for i := 0; i < len(vals); {
-		n := rapid.IntRange(1, 4).Draw(t, "psize")
+		n := []int{1, 1, 1, 2, 3, 4}[rapid.IntRange(0, 5).Draw(t, "psize")]
 		if i+n > len(vals) {
 			n = len(vals) - i
 		}
@@ -73,6 +73,31 @@ func genCase(t *rapid.T) Case {
 		}
 		c.Pages = append(c.Pages, p)
 		i += n
+	}
+	// perturbations of an ordered layout: repeated leading/trailing pages and a
+	// dip somewhere after them (boundary-order detection must notice the dip)
+	if layout <= 3 && len(c.Pages) >= 2 {
+		if rapid.IntRange(0, 2).Draw(t, "duplead") == 0 {
+			k := rapid.IntRange(1, 3).Draw(t, "ndup")
+			first := c.Pages[0]
+			for i := 0; i < k; i++ {
+				c.Pages = append([]Page{first}, c.Pages...)
+			}
+		}
+		if rapid.IntRange(0, 3).Draw(t, "duptail") == 0 {
+			c.Pages = append(c.Pages, c.Pages[len(c.Pages)-1])
+		}
+		switch rapid.IntRange(0, 5).Draw(t, "dip") {
+		case 0: // swap two pages
+			i := rapid.IntRange(0, len(c.Pages)-1).Draw(t, "si")
+			j := rapid.IntRange(0, len(c.Pages)-1).Draw(t, "sj")
+			c.Pages[i], c.Pages[j] = c.Pages[j], c.Pages[i]
+		case 1: // copy an earlier page to a later position
+			i := rapid.IntRange(0, len(c.Pages)-1).Draw(t, "ci")
+			j := rapid.IntRange(i, len(c.Pages)).Draw(t, "cj")
+			pg := c.Pages[i]
+			c.Pages = append(c.Pages[:j], append([]Page{pg}, c.Pages[j:]...)...)
+		}
 	}
 	// insert null pages: aimed (where the zero placeholder keeps the claimed order) and anywhere
 	nNull := rapid.IntRange(0, 3).Draw(t, "nnull")
@@ -272,6 +297,28 @@ func runCase(c Case, o *kit.Obs) *kit.Failure {
 	o.ClassIf(overlap, "overlapping-bounds")
 	if (ordered && nullNotLast) || (ordered && overlap) {
 		o.NonTrivial()
+	}
+
+	// a claimed boundary order must be true of the recorded bounds of the
+	// non-null pages (binary search relies on it)
+	if ordered {
+		prev := -1
+		for i := 0; i < np; i++ {
+			if bounds[i].null {
+				continue
+			}
+			if prev >= 0 {
+				cmn, _ := ref.Compare(l, bounds[prev].mn.I, bounds[prev].mn.B, bounds[i].mn.I, bounds[i].mn.B)
+				cmx, _ := ref.Compare(l, bounds[prev].mx.I, bounds[prev].mx.B, bounds[i].mx.I, bounds[i].mx.B)
+				if index.IsAscending() && (cmn > 0 || cmx > 0) {
+					return kit.Failf("c06/false-ascending{leaf="+l.ID+"}", "index claims ASCENDING but bounds of page %d are below those of page %d", i, prev)
+				}
+				if index.IsDescending() && (cmn < 0 || cmx < 0) {
+					return kit.Failf("c06/false-descending{leaf="+l.ID+"}", "index claims DESCENDING but bounds of page %d are above those of page %d", i, prev)
+				}
+			}
+			prev = i
+		}
 	}
 
 	type finder struct {
